@@ -342,6 +342,12 @@ class HTTPRequestParser:
             if connection.lower() == "close":
                 self.connection_close = True
 
+        if version != "1.1" and "TRANSFER_ENCODING" in headers:
+            # RFC 9112 section 6.1: the framing of a message that is not
+            # HTTP/1.1 but carries Transfer-Encoding is faulty.  Ignoring the
+            # field would execute the body bytes as the next request.
+            raise ParsingError("Transfer-Encoding requires HTTP/1.1")
+
         if not self.chunked:
             cl = headers.get("CONTENT_LENGTH", "0")
 
